@@ -18,7 +18,9 @@ def _registry(ctx) -> posix.Registry:
 
             ctx['registry'] = volatile.Registry()
         else:
-            ctx['registry'] = posix.Registry(root / 'registry', staging=root / 'staging')
+            name = os.environ.get('C05_ROOTNAME', 'registry')  # another tenant's registry next to the main one
+            ctx['registry'] = posix.Registry(root / name, staging=root / ('staging' if name == 'registry' else
+                                                                           f'{name}.staging'))
         ctx['directory'] = asset.Directory(ctx['registry'])
     return ctx['registry']
 
@@ -70,10 +72,16 @@ def _err(err: BaseException) -> str:
     return f'ERR:{type(err).__name__}:{str(err)[:120]}'
 
 
-def observe(ctx):
-    """List and read back everything through the public asset API."""
-    registry = _registry(ctx)
-    directory = _directory(ctx)
+def observe(ctx, where=None):
+    """List and read back everything through the public asset API. With `where`: through a registry object made for
+    this one call over that directory (a process may see several registries come and go - backups, other tenants)."""
+    if where is None:
+        registry = _registry(ctx)
+        directory = _directory(ctx)
+    else:
+        root = pathlib.Path(ctx['root'])
+        registry = posix.Registry(root / where, staging=root / ('staging' if where == 'registry' else f'{where}.staging'))
+        directory = asset.Directory(registry)
     out = {}
     for pkey in directory.list():
         project = directory.get(pkey)
